@@ -65,6 +65,54 @@ impl<T: Copy + Default> VecDeque<T> {
             self.get(self.len - 1)
         }
     }
+    pub fn push_front(&mut self, v: T) {
+        assert!(self.len < VD_CAP, "verif_shim: VecDeque model capacity exceeded");
+        self.head = (self.head + VD_CAP - 1) % VD_CAP;
+        self.buf[self.head] = v;
+        self.len += 1;
+    }
+    pub fn pop_back(&mut self) -> Option<T> {
+        if self.len == 0 {
+            return None;
+        }
+        self.len -= 1;
+        Some(self.buf[(self.head + self.len) % VD_CAP])
+    }
+    pub fn capacity(&self) -> usize {
+        VD_CAP
+    }
+    pub fn iter(&self) -> DequeIter<'_, T> {
+        DequeIter { q: self, i: 0 }
+    }
+}
+
+impl<T: Copy + Default> Default for VecDeque<T> {
+    fn default() -> Self {
+        Self::new()
+    }
+}
+
+pub struct DequeIter<'a, T> {
+    q: &'a VecDeque<T>,
+    i: usize,
+}
+
+impl<'a, T: Copy + Default> Iterator for DequeIter<'a, T> {
+    type Item = &'a T;
+    fn next(&mut self) -> Option<&'a T> {
+        let r = self.q.get(self.i);
+        if r.is_some() {
+            self.i += 1;
+        }
+        r
+    }
+}
+
+impl<T: Copy + Default> core::ops::Index<usize> for VecDeque<T> {
+    type Output = T;
+    fn index(&self, i: usize) -> &T {
+        self.get(i).expect("verif_shim: VecDeque model index out of bounds")
+    }
 }
 
 // ---------------------------------------------------------------------------
@@ -128,6 +176,102 @@ impl<K: Copy + Default + PartialEq, V: Copy + Default> HashMap<K, V> {
     pub fn iter(&self) -> MapIter<'_, K, V> {
         MapIter { m: self, i: 0 }
     }
+    fn index_of(&self, k: &K) -> Option<usize> {
+        let mut i = 0;
+        while i < MAP_CAP {
+            if i < self.len && self.keys[i] == *k {
+                return Some(i);
+            }
+            i += 1;
+        }
+        None
+    }
+    pub fn get_mut(&mut self, k: &K) -> Option<&mut V> {
+        match self.index_of(k) {
+            Some(i) => Some(&mut self.vals[i]),
+            None => None,
+        }
+    }
+    pub fn remove(&mut self, k: &K) -> Option<V> {
+        match self.index_of(k) {
+            Some(i) => {
+                let old = self.vals[i];
+                let mut j = i;
+                while j + 1 < MAP_CAP {
+                    if j + 1 < self.len {
+                        self.keys[j] = self.keys[j + 1];
+                        self.vals[j] = self.vals[j + 1];
+                    }
+                    j += 1;
+                }
+                self.len -= 1;
+                Some(old)
+            }
+            None => None,
+        }
+    }
+    /// `entry(k).or_insert(v)` / `.or_default()` / `.and_modify(f).or_insert(v)`
+    pub fn entry(&mut self, k: K) -> Entry<'_, K, V> {
+        Entry { m: self, k }
+    }
+}
+
+pub struct Entry<'a, K, V> {
+    m: &'a mut HashMap<K, V>,
+    k: K,
+}
+
+impl<'a, K: Copy + Default + PartialEq, V: Copy + Default> Entry<'a, K, V> {
+    pub fn or_insert(self, v: V) -> &'a mut V {
+        let i = match self.m.index_of(&self.k) {
+            Some(i) => i,
+            None => {
+                self.m.insert(self.k, v);
+                self.m.len - 1
+            }
+        };
+        &mut self.m.vals[i]
+    }
+    pub fn or_insert_with<F: FnOnce() -> V>(self, f: F) -> &'a mut V {
+        let i = match self.m.index_of(&self.k) {
+            Some(i) => i,
+            None => {
+                self.m.insert(self.k, f());
+                self.m.len - 1
+            }
+        };
+        &mut self.m.vals[i]
+    }
+    pub fn or_default(self) -> &'a mut V {
+        self.or_insert(V::default())
+    }
+    pub fn and_modify<F: FnOnce(&mut V)>(self, f: F) -> Self {
+        if let Some(i) = self.m.index_of(&self.k) {
+            f(&mut self.m.vals[i]);
+        }
+        self
+    }
+}
+
+impl<K: Copy + Default + PartialEq, V: Copy + Default> Default for HashMap<K, V> {
+    fn default() -> Self {
+        Self::new()
+    }
+}
+
+impl<'a, K: Copy + Default + PartialEq, V: Copy + Default> IntoIterator for &'a HashMap<K, V> {
+    type Item = (&'a K, &'a V);
+    type IntoIter = MapIter<'a, K, V>;
+    fn into_iter(self) -> MapIter<'a, K, V> {
+        self.iter()
+    }
+}
+
+impl<K: Copy + Default + PartialEq, V: Copy + Default> core::ops::Index<&K> for HashMap<K, V> {
+    type Output = V;
+    fn index(&self, k: &K) -> &V {
+        self.get(k).expect("verif_shim: HashMap model: key not found")
+    }
 }
 
 pub struct MapIter<'a, K, V> {
@@ -189,6 +333,25 @@ impl<K: Copy + Default + PartialEq> HashSet<K> {
         self.len += 1;
         true
     }
+    pub fn is_empty(&self) -> bool {
+        self.len == 0
+    }
+}
+
+impl<K: Copy + Default + PartialEq> Default for HashSet<K> {
+    fn default() -> Self {
+        Self::new()
+    }
+}
+
+impl<K: Copy + Default + PartialEq> FromIterator<K> for HashSet<K> {
+    fn from_iter<I: IntoIterator<Item = K>>(it: I) -> Self {
+        let mut s = HashSet::new();
+        for k in it {
+            s.insert(k);
+        }
+        s
+    }
 }
 
 pub struct SetIntoIter<K> {
@@ -234,40 +397,109 @@ pub struct Vec<T> {
     len: usize,
 }
 
+impl<T: Copy + Default> Default for Vec<T> {
+    fn default() -> Self {
+        Self::new()
+    }
+}
+
 impl<T: Copy + Default> Vec<T> {
     pub fn new() -> Self {
         Vec { buf: [T::default(); KV_CAP], len: 0 }
     }
-    pub fn len(&self) -> usize {
-        self.len
+    pub fn with_capacity(_n: usize) -> Self {
+        Self::new()
     }
-    pub fn is_empty(&self) -> bool {
-        self.len == 0
+    pub fn capacity(&self) -> usize {
+        KV_CAP
     }
+    pub fn reserve(&mut self, _n: usize) {}
     pub fn clear(&mut self) {
         self.len = 0;
+    }
+    pub fn truncate(&mut self, n: usize) {
+        if n < self.len {
+            self.len = n;
+        }
     }
     pub fn push(&mut self, v: T) {
         assert!(self.len < KV_CAP, "verif_shim: Vec model capacity (12) exceeded");
         self.buf[self.len] = v;
         self.len += 1;
     }
+    pub fn pop(&mut self) -> Option<T> {
+        if self.len == 0 {
+            None
+        } else {
+            self.len -= 1;
+            Some(self.buf[self.len])
+        }
+    }
+    pub fn extend_from_slice(&mut self, other: &[T]) {
+        let mut i = 0;
+        while i < other.len() {
+            self.push(other[i]);
+            i += 1;
+        }
+    }
     pub fn clone_from(&mut self, other: &Self) {
         *self = *other;
     }
-    pub fn get(&self, i: usize) -> Option<&T> {
-        if i < self.len {
-            Some(&self.buf[i])
-        } else {
-            None
+    pub fn as_slice(&self) -> &[T] {
+        &self.buf[..self.len]
+    }
+}
+
+// the read API of a slice (len, is_empty, iter, first, last, get, indexing, ...) comes through Deref
+impl<T> core::ops::Deref for Vec<T> {
+    type Target = [T];
+    fn deref(&self) -> &[T] {
+        &self.buf[..self.len]
+    }
+}
+
+impl<T> core::ops::DerefMut for Vec<T> {
+    fn deref_mut(&mut self) -> &mut [T] {
+        &mut self.buf[..self.len]
+    }
+}
+
+impl<T: Copy + Default> Extend<T> for Vec<T> {
+    fn extend<I: IntoIterator<Item = T>>(&mut self, it: I) {
+        for v in it {
+            self.push(v);
         }
     }
 }
 
-impl<T> core::ops::Index<usize> for Vec<T> {
-    type Output = T;
-    fn index(&self, i: usize) -> &T {
-        assert!(i < self.len, "verif_shim: Vec model index out of bounds");
-        &self.buf[i]
+impl<T: Copy + Default> FromIterator<T> for Vec<T> {
+    fn from_iter<I: IntoIterator<Item = T>>(it: I) -> Self {
+        let mut v = Vec::new();
+        for x in it {
+            v.push(x);
+        }
+        v
+    }
+}
+
+impl<T: PartialEq> PartialEq for Vec<T> {
+    fn eq(&self, other: &Self) -> bool {
+        if self.len != other.len {
+            return false;
+        }
+        let mut i = 0;
+        while i < KV_CAP {
+            if i < self.len && self.buf[i] != other.buf[i] {
+                return false;
+            }
+            i += 1;
+        }
+        true
+    }
+}
+
+impl<T: core::fmt::Debug> core::fmt::Debug for Vec<T> {
+    fn fmt(&self, f: &mut core::fmt::Formatter<'_>) -> core::fmt::Result {
+        f.write_str("Vec(model)")
     }
 }
